@@ -34,7 +34,8 @@ def worker(lane):
             print(j[1], "no meta:", e, flush=True)
 
 
-ts = [threading.Thread(target=worker, args=(i + 1,)) for i in range(lanes)]
+base = int(os.environ.get("LANE_BASE", "0"))
+ts = [threading.Thread(target=worker, args=(base + i + 1,)) for i in range(lanes)]
 for t in ts:
     t.start()
 for t in ts:
